@@ -325,6 +325,17 @@ func (q *Query) Text(withModel bool) string {
 		b.WriteString(a)
 		b.WriteString(")\n")
 	}
+	goal := q.Goal
+	if q.Expect == "" {
+		decls, ng, extra := skolemize(q.Goal, q.Assumes, 0)
+		for _, d := range decls {
+			b.WriteString(d + "\n")
+		}
+		for _, e := range extra {
+			b.WriteString("(assert " + e + ")\n")
+		}
+		goal = ng
+	}
 	if q.Expect == "sat" {
 		// vacuity probe: assumptions alone
 		if q.Goal != "" && q.Goal != "true" {
@@ -332,7 +343,7 @@ func (q *Query) Text(withModel bool) string {
 		}
 	} else {
 		b.WriteString("(assert (not ")
-		b.WriteString(q.Goal)
+		b.WriteString(goal)
 		b.WriteString("))\n")
 	}
 	b.WriteString("(check-sat)\n")
@@ -591,4 +602,148 @@ func sortedKeys[V any](m map[string]V) []string {
 	}
 	sort.Strings(ks)
 	return ks
+}
+
+// ---------- goal skolemisation and goal-directed instantiation ----------
+
+type binder struct{ name, sort string }
+
+// splitForall recognises "(forall ((x S) ...) body)" and returns binders and body.
+func splitForall(t string) ([]binder, string, bool) {
+	t = strings.TrimSpace(t)
+	if !strings.HasPrefix(t, "(forall ") {
+		return nil, "", false
+	}
+	parts := sexprSplit(t[1 : len(t)-1])
+	if len(parts) != 3 || parts[0] != "forall" {
+		return nil, "", false
+	}
+	bl := strings.TrimSpace(parts[1])
+	var bs []binder
+	for _, b := range sexprSplit(bl[1 : len(bl)-1]) {
+		f := sexprSplit(b[1 : len(b)-1])
+		if len(f) != 2 {
+			return nil, "", false
+		}
+		bs = append(bs, binder{f[0], f[1]})
+	}
+	return bs, parts[2], true
+}
+
+// substTerm replaces whole-symbol occurrences of name by val in an s-expression string.
+func substTerm(t, name, val string) string {
+	var b strings.Builder
+	i := 0
+	for i < len(t) {
+		c := t[i]
+		if c == '"' {
+			j := i + 1
+			for j < len(t) {
+				if t[j] == '"' {
+					if j+1 < len(t) && t[j+1] == '"' {
+						j += 2
+						continue
+					}
+					break
+				}
+				j++
+			}
+			b.WriteString(t[i : j+1])
+			i = j + 1
+			continue
+		}
+		if c == '|' {
+			j := strings.IndexByte(t[i+1:], '|')
+			if j < 0 {
+				b.WriteString(t[i:])
+				break
+			}
+			b.WriteString(t[i : i+j+2])
+			i += j + 2
+			continue
+		}
+		if c == '(' || c == ')' || c == ' ' || c == '\n' || c == '\t' {
+			b.WriteByte(c)
+			i++
+			continue
+		}
+		j := i
+		for j < len(t) && !strings.ContainsRune("() \n\t", rune(t[j])) {
+			j++
+		}
+		if t[i:j] == name {
+			b.WriteString(val)
+		} else {
+			b.WriteString(t[i:j])
+		}
+		i = j
+	}
+	return b.String()
+}
+
+// skolemize turns a goal "(forall (bs) body)" (possibly under "(=> A ...)") into a goal over
+// fresh constants, and returns instances of the universally quantified assumptions at those
+// constants. Everything added is a consequence of the original assumptions, so soundness is kept;
+// the original quantified formulas stay in place.
+func skolemize(goal string, assumes []string, tag int) (decls []string, newGoal string, extra []string) {
+	bs, body, ok := splitForall(goal)
+	prefix := ""
+	if !ok {
+		// (=> A (forall ...))
+		g := strings.TrimSpace(goal)
+		if strings.HasPrefix(g, "(=> ") {
+			parts := sexprSplit(g[1 : len(g)-1])
+			if len(parts) == 3 {
+				if bs2, body2, ok2 := splitForall(parts[2]); ok2 {
+					bs, body, ok = bs2, body2, true
+					prefix = parts[1]
+				}
+			}
+		}
+	}
+	if !ok {
+		return nil, goal, nil
+	}
+	sk := map[string][]string{} // sort -> skolem constants
+	for i, b := range bs {
+		name := fmt.Sprintf("|sk!%d!%d|", tag, i)
+		decls = append(decls, fmt.Sprintf("(declare-const %s %s)", name, b.sort))
+		body = substTerm(body, b.name, name)
+		sk[b.sort] = append(sk[b.sort], name)
+	}
+	newGoal = body
+	if prefix != "" {
+		newGoal = "(=> " + prefix + " " + body + ")"
+	}
+	for _, a := range assumes {
+		abs, abody, ok := splitForall(a)
+		if !ok || len(abs) > 3 {
+			continue
+		}
+		// all combinations of skolems of matching sorts
+		combos := []string{abody}
+		feasible := true
+		for _, b := range abs {
+			cands := sk[b.sort]
+			if len(cands) == 0 {
+				feasible = false
+				break
+			}
+			var next []string
+			for _, c := range combos {
+				for _, cand := range cands {
+					next = append(next, substTerm(c, b.name, cand))
+				}
+			}
+			combos = next
+			if len(combos) > 27 {
+				feasible = false
+				break
+			}
+		}
+		if feasible {
+			extra = append(extra, combos...)
+		}
+	}
+	return
 }
